@@ -149,6 +149,7 @@ class BaseValidator(object):
                 error.prepend_message(
                     "cannot accept field %s" % _compat.text_repr(field_to_validate.field_name), self.location
                 )
+                _verif.emit("reject", self, None, error)
                 raise
 
         # Validate the whole row according to row checks.
